@@ -4,10 +4,11 @@
 (* more).  Universes in which the root pumps are exported (with every bucket assignment drawn by    *)
 (* the harness) for replay into the real extractor.                                                 *)
 EXTENDS ForestExtract, Json
-CONSTANTS NC, MaxShift, MaxArity, MaxKeys, EmitMode
+CONSTANTS NC, MaxShift, MaxArity, MaxKeys, EmitMode, AllBuckets
 Classes == 0..(NC - 1)
 Shifts == (-MaxShift)..MaxShift
-Alphabet == UNION {{[p |-> p, ch |-> ch, sh |-> sh, b |-> "NORMAL"] : p \in Classes, ch \in [1..a -> Classes], sh \in [1..a -> Shifts]} : a \in 0..MaxArity}
+Buckets(a) == IF a = 0 THEN {"VERIFICATION"} ELSE IF AllBuckets THEN {"NORMAL", "REVERSE", "EQUIV"} ELSE {"NORMAL"}
+Alphabet == UNION {{[p |-> p, ch |-> ch, sh |-> sh, b |-> b] : p \in Classes, ch \in [1..a -> Classes], sh \in [1..a -> Shifts], b \in Buckets(a)} : a \in 0..MaxArity}
 VARIABLES hist
 Init == hist = <<>>
 Next == Len(hist) < MaxKeys /\ \E k \in Alphabet : hist' = Append(hist, k)
@@ -15,5 +16,7 @@ Spec == Init /\ [][Next]_hist
 UU == {hist[i] : i \in 1..Len(hist)}
 MinimalImpliesFunctionalAndClosed ==
   \A SS \in SUBSET UU : MinimalProductive(SS, 0) => FunctionalSet(SS) /\ ClosedSet(SS)
+\* the implementation-shaped minimisation satisfies the post-conditions of C11, whatever the list order and buckets
+MinimizeMeetsPostconditions == Pumps(UU, 0) => ExtractClause(Minimize(hist, 0), hist, 0) = "ok"
 Emit == (EmitMode = "pumping" /\ Len(hist) = MaxKeys /\ Pumps(UU, 0)) => PrintT(<<"H", ToJson(hist)>>)
 =============================================================================
